@@ -4,11 +4,26 @@ import (
 	"encoding/binary"
 	"sync"
 	"sync/atomic"
+	"unsafe"
 )
 
 func init() {
 	vpHarnesses["vpC20_O3"] = vpC20_O3
 	vpHarnesses["vpC20_O1"] = vpC20_O1
+}
+
+// vpCounter reaches the generator's block counter whether it is declared as a plain uint64
+// (accessed with sync/atomic functions) or as a typed atomic (whose value is its only sized field).
+func vpCounter(c *CPRNG) *uint64 { return (*uint64)(unsafe.Pointer(&c.counter)) }
+
+func vpNewCPRNG(block interface {
+	BlockSize() int
+	Encrypt(dst, src []byte)
+	Decrypt(dst, src []byte)
+}, start uint64) *CPRNG {
+	c := &CPRNG{block: block}
+	*vpCounter(c) = start
+	return c
 }
 
 // vpLogCipher is a cipher.Block that records which counter blocks it is asked to encrypt.
@@ -41,7 +56,7 @@ func vpC20_O1() {
 	log := &vpLogCipher{}
 	start := vpUint64("counter0")
 	vpAssume(start < 1<<62) // no wrap-around of the 64-bit block counter
-	c := &CPRNG{block: log, counter: start}
+	c := vpNewCPRNG(log, start)
 	// lengths around every block boundary up to maxlen
 	max := vpParam("maxlen", 40)
 	var lens []int
@@ -63,7 +78,7 @@ func vpC20_O1() {
 		vpAssert("blocks are the consecutive counter values of the reservations", blk == want)
 	}
 	vpAssert("plaintexts are counter blocks", !log.bad)
-	vpAssert("counter advanced by the blocks handed out", c.counter == start+uint64(nb1+nb2))
+	vpAssert("counter advanced by the blocks handed out", *vpCounter(c) == start+uint64(nb1+nb2))
 	vpAssert("guard bytes untouched", b1[n1] == 0 && b2[n2] == 0)
 	vpAssert("last requested bytes written", b1[n1-1] == 0xA5 && b2[n2-1] == 0xA5 && b1[0] == 0xA5 && b2[0] == 0xA5)
 	vpAssert("empty read is a no-op", func() bool { n, err := c.Read(nil); return n == 0 && err == nil && len(log.blocks) == nb1+nb2 }())
@@ -99,7 +114,7 @@ func vpC20_O3() {
 }
 
 func vpC20ConcurrentReads(start uint64, n [2]int) {
-	c := &CPRNG{block: vpIdCipher{}, counter: start}
+	c := vpNewCPRNG(vpIdCipher{}, start)
 	native := vpNative()
 	var ready int32
 	var res [2][]byte
@@ -136,5 +151,5 @@ func vpC20ConcurrentReads(start uint64, n [2]int) {
 	}
 	vpAssert("concurrent readers never share a keystream block", first[0]+nb[0] <= first[1] || first[1]+nb[1] <= first[0])
 	vpAssert("blocks come from the reserved range", first[0] >= start && first[1] >= start && first[0]+nb[0] <= start+nb[0]+nb[1] && first[1]+nb[1] <= start+nb[0]+nb[1])
-	vpAssert("counter ends past both reservations", c.counter == start+nb[0]+nb[1])
+	vpAssert("counter ends past both reservations", *vpCounter(c) == start+nb[0]+nb[1])
 }
